@@ -271,7 +271,7 @@ pub fn run(ctx: &Ctx) -> i32 {
         property: "C02",
         tier,
         seed: ctx.seed,
-        scenarios: tier.pick(400, 12_000),
+        scenarios: tier.pick(1_600, 30_000),
         threads: super::threads(),
         watchdog: Duration::from_secs(300),
         budget: Duration::from_secs(tier.pick(120, 1200)),
